@@ -83,6 +83,10 @@ def cex_to_text(cex):
         lines.append("encode " + " ".join(str(x) for x in e))
     if "moves" in cex:
         lines.append("moves %s" % cex["moves"])
+    if cex.get("reuse"):
+        lines.append("reuse 1")
+    if "fault" in cex:
+        lines.append("fault %d %s" % (cex["fault"][0], cex["fault"][1]))
     if "block_size" in cex:
         lines.append("block_size %d" % cex["block_size"])
     for e in cex.get("entries", []):
@@ -219,6 +223,48 @@ def family_db_views(seed):
     return [{"oracle": "db_views", "db": ops, "moves": moves[i % len(moves)]} for i, ops in enumerate(fam)]
 
 
+def family_faults(seed):
+    """C08 bounded stand-in: whole-database histories on a file system that fails ONE counted call
+    (create_file, open_file, rename, remove_file, get_file_size, write/append) once or from then on;
+    every position of every history is tried (oracle faults)."""
+    a = lambda s: s.encode().hex() if s else "-"
+    P = lambda k, v: ["put", a(k), a(v)]
+    D = lambda k: ["delete", a(k)]
+    F, C = ["flush"], ["compact"]
+    B = lambda *kv: ["batch"] + [a(x) if x != "!" else "!" for x in kv]
+    R = lambda mode: ["reopen", mode]
+    fam = [
+        (False, [P("a", "1"), P("b", "1"), F, P("a", "2"), D("b"), P("c", "1"), F, P("d", "1")]),
+        (False, [P("a", "1"), P("b", "1"), F, P("a", "2"), D("b"), F, C, P("c", "1"), R("fresh"), P("d", "1"), B("a", "3", "e", "5", "c", "!"), F, C]),
+        (True, [P("a", "1"), B("b", "1", "c", "1"), R("reuse"), P("a", "2"), F, P("d", "1"), R("reuse"), D("a"), C, P("e", "1")]),
+    ]
+    x = (seed * 2246822519 + 374761393) & 0xffffffff
+    def rnd(n):
+        nonlocal x
+        x = (x * 1103515245 + 12345) & 0x7fffffff
+        return (x >> 8) % n
+    keys = ["a", "b", "c", "d"]
+    for h_ in range(2):
+        ops = []
+        for i in range(10 + 4 * h_):
+            r = rnd(20)
+            k = keys[rnd(len(keys))]
+            if r < 9:
+                ops.append(P(k, "v%d" % i))
+            elif r < 12:
+                ops.append(D(k))
+            elif r < 14:
+                ops.append(B(k, "b%d" % i, keys[rnd(len(keys))], "!"))
+            elif r < 17:
+                ops.append(F)
+            elif r < 18:
+                ops.append(C)
+            else:
+                ops.append(R("x"))
+        fam.append((bool((seed + h_) % 2), ops))
+    return [{"oracle": "faults", "db": ops, "reuse": reuse} for reuse, ops in fam]
+
+
 def family_batch_codec(seed):
     """Serialized write batches (the payload of a WAL record): well formed, cut at and inside element
     boundaries, with a count that disagrees with the elements present, with bad operation bytes."""
@@ -288,6 +334,7 @@ def family_bloom(seed):
 
 
 FAMILIES = [
+    ("U46::", family_faults),
     ("U35::", family_batch_codec),
     ("U06::", family_bloom),
     ("U19::write_snapshot_record_file", family_db_snapshot),
@@ -337,6 +384,7 @@ def _search_family(fam, repo):
 
 
 BOUNDS = {
+    "family_faults": "5 whole-database histories (3 hand-written, 2 pseudo-random per seed; at most 14 operations over 5 keys, with flushes, manual compactions and reopens, reuse_log_files on and off), each re-run once per counted file-system call (about 60 to 170 per history) with that call failing once and with that call and all later ones failing; only wrong results are judged - a panic or a hang of a faulted run is counted as not judged",
     "family_db_views": "whole-database histories of at most 85 operations over 7 keys (8 hand-written + 10 pseudo-random per seed); every live snapshot and the latest state read back through get, both scan directions, seek to every key, a zig-zag walk and 5 cursor scripts per key",
     "family_log_reader": "write-ahead-log byte streams built from the hand-written and seeded append / reopen / truncate / flip scripts of tools/replay.py (records up to 3 blocks)",
     "family_table_get": "one table of 16 entries (4 user keys x 4 versions) at block sizes 1, 64, 150, 4096 with 49 lookups, plus a one-entry table",
